@@ -1,4 +1,4 @@
-From Coq Require Import ZArith QArith Qpower Lia Lqa Psatz Field.
+From Coq Require Import ZArith QArith Qpower Qabs List Lia Lqa Psatz Field.
 Open Scope Z_scope.
 Definition D := (Z * Z)%type.
 Definition D2Q (a : D) : Q := (inject_Z (fst a) * Qpower 2 (snd a))%Q.
@@ -54,4 +54,64 @@ Proof.
     { setoid_replace 0%Q with (0 * Qpower 2 (snd c))%Q by ring. apply Qmult_lt_compat_r; assumption. }
     rewrite H in H1. clear H Hp Hn. revert H1 Hc. generalize (D2Q a), (D2Q b). intros x y H1 Hc. lra.
 Qed.
-Print Assumptions dle_ok.
+
+
+(* ---- further operations (all exact) ---- *)
+Definition dzero : D := (0, 0).
+Definition done : D := (1, 0).
+Definition dsub (a b : D) : D := dadd a (dopp b).
+Definition dabs (a : D) : D := (Z.abs (fst a), snd a).
+Definition dlt (a b : D) : bool := negb (dle b a).
+Definition deq (a b : D) : bool := dle a b && dle b a.
+Definition dmax (a b : D) : D := if dle a b then b else a.
+Definition dpow2 (e : Z) : D := (1, e).
+Fixpoint dsum (l : list D) : D := match l with nil => dzero | cons a r => dadd a (dsum r) end.
+(* |a - b| <= 2^e * max(|a|, |b|, floor) *)
+Definition dclose (e : Z) (floor a b : D) : bool :=
+  dle (dabs (dsub a b)) (dmul (dpow2 e) (dmax (dmax (dabs a) (dabs b)) floor)).
+(* normalise the mantissa now and then: drop trailing zero bits (keeps numbers short in long sums) *)
+Definition dnorm (a : D) : D :=
+  let '(m, e) := a in
+  if m =? 0 then (0, 0) else
+  let k := Z.log2 (Z.land m (- m)) in (Z.shiftr m k, e + k).
+
+Lemma dsub_ok a b : (D2Q (dsub a b) == D2Q a - D2Q b)%Q.
+Proof. unfold dsub. rewrite dadd_ok, dopp_ok. ring. Qed.
+Lemma dabs_ok a : (D2Q (dabs a) == Qabs (D2Q a))%Q.
+Proof.
+  destruct a as [m e]. unfold D2Q, dabs. cbn [fst snd]. rewrite Qabs_Qmult.
+  rewrite (Qabs_pos (Qpower 2 e)) by (apply Qlt_le_weak, pow2_pos).
+  apply Qmult_comp; [|reflexivity]. unfold Qabs, inject_Z. reflexivity.
+Qed.
+Lemma dzero_ok : (D2Q dzero == 0)%Q. Proof. reflexivity. Qed.
+Lemma done_ok : (D2Q done == 1)%Q. Proof. reflexivity. Qed.
+Lemma deq_ok a b : deq a b = true <-> (D2Q a == D2Q b)%Q.
+Proof.
+  unfold deq. rewrite Bool.andb_true_iff, !dle_ok. split.
+  - intros [H1 H2]. apply Qle_antisym; assumption.
+  - intros H. rewrite H. split; apply Qle_refl.
+Qed.
+Lemma dlt_ok a b : dlt a b = true <-> (D2Q a < D2Q b)%Q.
+Proof.
+  unfold dlt. rewrite Bool.negb_true_iff. split.
+  - intros H. apply Qnot_le_lt. intros Hle. apply dle_ok in Hle. congruence.
+  - intros H. destruct (dle b a) eqn:E; [|reflexivity]. apply dle_ok in E. exfalso. apply (Qlt_not_le _ _ H E).
+Qed.
+Lemma dsum_ok l : (D2Q (dsum l) == fold_right (fun a s => D2Q a + s) 0 l)%Q.
+Proof. induction l as [|a r IH]; simpl; [reflexivity|]. rewrite dadd_ok, IH. reflexivity. Qed.
+
+Require Import Coq.QArith.Qminmax.
+Lemma dmax_ok a b : (D2Q (dmax a b) == Qmax (D2Q a) (D2Q b))%Q.
+Proof.
+  unfold dmax. destruct (dle a b) eqn:E.
+  - apply dle_ok in E. symmetry. apply Q.max_r. exact E.
+  - assert (H: (D2Q b < D2Q a)%Q) by (apply dlt_ok; unfold dlt; rewrite E; reflexivity).
+    symmetry. apply Q.max_l. apply Qlt_le_weak. exact H.
+Qed.
+Lemma dpow2_ok e : (D2Q (dpow2 e) == Qpower 2 e)%Q.
+Proof. unfold D2Q, dpow2. simpl. ring. Qed.
+Lemma dclose_ok e fl a b : dclose e fl a b = true <->
+  (Qabs (D2Q a - D2Q b) <= Qpower 2 e * Qmax (Qmax (Qabs (D2Q a)) (Qabs (D2Q b))) (D2Q fl))%Q.
+Proof.
+  unfold dclose. rewrite dle_ok, dabs_ok, dsub_ok, dmul_ok, dpow2_ok, !dmax_ok, !dabs_ok. reflexivity.
+Qed.
